@@ -30,6 +30,9 @@ def correspondence(ctx):
             cases.append(f'prof|{prof_}|{op_}|f|b|{c_:04X}|')
             cases.append(f'prof|{prof_}|{op_}|f|b|0061 {c_:04X}|')
             cases.append(f'prof|{prof_}|{op_}|f|b|{c_:04X} 0041|')
+    for s_ in mark_structures(ctx):
+        for prof_ in ('um', 'up'):
+            cases.append(f'prof|{prof_}|enforce|f|b|{hexs(s_)}|')
     res = run_cases(cases, ctx.work)
     known = known_bidi(ctx)
 
